@@ -113,7 +113,12 @@ def delete_sources(ctx, F, rid):
     for b, bb, c in cg.call_sites(lambda c: c == 'incremental::apply_remote_deletes', within=graph):
         fl = flow_of(b)
         t = b.blocks[bb]['term']
-        do = fl.origins(t['args'][4])
+        ard = F.body('incremental::apply_remote_deletes')
+        slots = params_of_type(F, ard, lambda ty: 'PathBuf]' in ty.replace(' ', '') or 'Vec<std::path::PathBuf' in ty) if ard is not None else []
+        if len(slots) != 1 or slots[0] - 1 >= len(t['args']):
+            ctx.undecided(rid, 'apply_remote_deletes: which parameter is the delete list (%s)' % slots)
+            continue
+        do = fl.origins(t['args'][slots[0] - 1])
         ctx.check(bool(do) and all(o.path[-1:] == ('delete',) for o in do if o.kind != 'comb'), rid, 'run_remote:apply_remote_deletes(&plan.delete)',
                   'delete list handed over is plan.delete', 'apply_remote_deletes is not given plan.delete', term_loc(b, bb))
         n += 1
